@@ -767,6 +767,11 @@ func checkDecodeCashAddress(input string) (result []byte, prefix string, t Addre
 		t = AddrTypePayToPubKeyHash
 	case 0x08:
 		t = AddrTypePayToScriptHash
+	default:
+		// Any other version byte (reserved bit set, unknown type or a
+		// size code that does not match the 160 bit payload) is not an
+		// address this library can represent.
+		return data, prefix, AddrTypePayToPubKeyHash, ErrUnknownAddressType
 	}
 	return data[1:21], prefix, t, nil
 }
